@@ -675,7 +675,7 @@ func (r *Run) nilGuardedDerefs(f *prog.FuncInfo) {
 			return true
 		}
 		be, ok := ast.Unparen(is.Cond).(*ast.BinaryExpr)
-		if !ok || be.Op != token.NEQ {
+		if !ok || (be.Op != token.NEQ && be.Op != token.EQL) {
 			return true
 		}
 		if id, ok := ast.Unparen(be.Y).(*ast.Ident); !ok || id.Name != "nil" {
@@ -683,6 +683,16 @@ func (r *Run) nilGuardedDerefs(f *prog.FuncInfo) {
 		}
 		g := prog.SelField(info, be.X)
 		if g == nil {
+			return true
+		}
+		if be.Op == token.EQL {
+			// `if x.F == nil { ... *x.F ... }` dereferences a pointer just established nil
+			ast.Inspect(is.Body, func(m ast.Node) bool {
+				if st, ok := m.(*ast.StarExpr); ok && prog.SelField(info, st.X) == g {
+					r.Fail(f.Name()+":nil-deref:"+g.Name(), st.Pos(), nil, "%s is dereferenced in the branch where it was just found nil (inverted guard): the field is never recorded when present and the function panics when it is absent", g.Name())
+				}
+				return true
+			})
 			return true
 		}
 		ast.Inspect(is.Body, func(m ast.Node) bool {
